@@ -57,6 +57,35 @@ type c20Scenario struct {
 	Plan     []string `json:"plan"`
 	Hold     bool     `json:"hold"`
 	Patient  int      `json:"patient"`
+	// Hist: EARLIER calls of unblindProposal made on the same service instance before the call described above
+	// (the proposer is long-lived: one scenario = one history of calls on it)
+	Hist []c20HistCall `json:"hist"`
+}
+
+type c20HistCall struct {
+	N        int      `json:"n"`
+	Deadline bool     `json:"deadline"`
+	Plan     []string `json:"plan"`
+	Hold     bool     `json:"hold"`
+}
+
+// c20RunHistory makes the calls of the scenario's history, then its own call, one after the other on the service.
+func c20RunHistory(s *Service, gate *c20Gate, sc *c20Scenario) (*c20Call, error) {
+	var events []verifsupport.Ev
+	for i, h := range sc.Hist {
+		one := &c20Scenario{Sc: sc.Sc, Kind: sc.Kind, N: h.N, Deadline: h.Deadline, Plan: h.Plan, Hold: h.Hold, Patient: sc.Patient}
+		call, err := c20RunCall(s, gate, one)
+		if err != nil {
+			return nil, fmt.Errorf("call %d of the history: %w", i+1, err)
+		}
+		events = append(events, call.events...)
+	}
+	call, err := c20RunCall(s, gate, sc)
+	if err != nil {
+		return nil, err
+	}
+	call.events = append(events, call.events...)
+	return call, nil
 }
 
 // c20Outcome is the relay's reply to try number t (1-based); "none": nothing but the end of the context.
@@ -505,7 +534,7 @@ func TestVerifC20Unblind(t *testing.T) {
 		go func() {
 			defer wg.Done()
 			for i := range nextCh {
-				calls[i], errs[i] = c20RunCall(s, gate, &scenarios[i])
+				calls[i], errs[i] = c20RunHistory(s, gate, &scenarios[i])
 			}
 		}()
 	}
